@@ -196,8 +196,10 @@ class DictNet:
     def arm(self, k: int = 1):
         self.raise_at = self.calls + int(k)
 
-    def _value(self, c):
+    def _value(self, c, k=None):
         t = float(c.detach().double().sum()) if c is not None else 0.0
+        if k is not None:
+            t += float(k)
         out = {}
         for i, (name, shape) in enumerate(sorted(self.shapes.items())):
             a = gen.randn(self.seed + 2 * i, shape).double()
@@ -220,10 +222,10 @@ class DictNet:
             self.raise_at = None
             self.raised += 1
             raise RuntimeError("injected fault: parameter callable failed")
-        return self._value(args[0] if args else None)
+        return self._value(args[0] if args else None, kwargs.get("k"))
 
     def peek(self, *args, **kwargs):
-        return self._value(args[0] if args else None)
+        return self._value(args[0] if args else None, kwargs.get("k"))
 
 
 # --------------------------------------------------------------------------- twin
@@ -665,6 +667,26 @@ class XformWorld:
                 out[id(o)] = tdig(p_)
         return out
 
+    def _own_params(self, x) -> Dict[int, Tuple[Any, bytes]]:
+        """Digest of the parameter tensors held by the elementary members of x themselves (kinds P and B); members of a
+        generic transform with predicted parameters are left out (their tensors are rewritten by every prediction)."""
+        out: Dict[int, Tuple[Any, bytes]] = {}
+
+        def rec(t, under_pred: bool):
+            if isinstance(t, CompositeTransform):
+                up = under_pred or generic_pred(t)
+                for m in t.transforms():
+                    rec(m, up)
+                return
+            if under_pred:
+                return
+            p_ = getattr(t, "params", None)
+            if isinstance(p_, Tensor):
+                out[id(t)] = (t, tdig(p_))
+
+        rec(x.obj, False)
+        return out
+
     def refreshed_unknown(self, x):
         """x re-predicted / re-read its parameters (a successful call or update()): what other objects buffered from x's
         *previous* prediction is outdated -- the objects linked (transitively) to a member of x, the composites that hold
@@ -785,6 +807,15 @@ class XformWorld:
                     f = gen.smooth_field(s, D, sp, 1.0)
                 elif mode == "affine":
                     f = gen.affine_field(s, D, sp, 1.0)
+                elif mode == "bump":
+                    # a one-signed field with compact support (a local push): every component >= 0 (or every component
+                    # <= 0), exactly zero outside the bumps; C1 (squared positive part of a band-limited field)
+                    f = gen.smooth_field(s, D, sp, 1.0)
+                    f = (f - 0.25 * f.abs().max()).clamp(min=0.0)
+                    f = f * f
+                    f = f / f.abs().max().clamp(min=1e-6)
+                    if s % 2:
+                        f = -f
                 else:
                     f = gen.randn(s, (1, D) + tuple(sp), 1.0)
                     f = f / f.abs().max().clamp(min=1e-6)
@@ -1040,7 +1071,10 @@ class _Ops:
         kw = dict(op.get("kw", {}))
         if "stride" in kw and isinstance(kw["stride"], list):
             kw["stride"] = tuple(kw["stride"])
-        smooth = op.get("init", {}).get("gen", "smooth") in ("smooth", "affine")
+        if op.get("scale_as_tensor") and kw.get("scale") is not None:
+            kw["scale"] = torch.tensor(float(kw["scale"]))  # a 0-dim tensor where a number is documented: accepted (float() is taken)
+            self.c["probes"]["velocity_scale_given_as_tensor"] += 1
+        smooth = op.get("init", {}).get("gen", "smooth") in ("smooth", "affine", "bump")
         if name in LINSEQ:
             # member parameter kinds: one letter per member
             names = LINSEQ_MEMBERS[name]
@@ -1186,15 +1220,20 @@ class _Ops:
 
             gk = gen.grid_key(x.obj.grid())
             ent = self.xf.get((x.hid, via))
-            if ent is None or ent[1] != gk:
+            # an ImageTransformer samples on the grids it was constructed with; a PointSetTransformer fixes only the domain
+            # its *input and output points* refer to (the transform's grid and axes at construction) and asks the transform
+            # for its grid at call time: it is kept across grid changes of the transform
+            if ent is None or (via == "image" and ent[1] != gk):
                 stc, mod = self.guarded(lambda: ImageTransformer(x.obj) if via == "image" else PointSetTransformer(x.obj))
                 if stc != "ok":
                     return StepResult("expected_error", "transformer-ctor")
-                ent = (mod, gk)
+                ent = (mod, gk, x.obj.grid().clone(), x.obj.axes())
                 self.xf[(x.hid, via)] = ent
                 self.c["probes"]["transformer_created"] += 1
             else:
                 self.c["probes"]["transformer_reused"] += 1
+                if ent[1] != gk:
+                    self.c["probes"]["pointset_transformer_reused_after_grid_change"] += 1
             mod = ent[0]
             if via == "image":
                 shape = tuple(int(n) for n in x.obj.grid().shape)
@@ -1203,7 +1242,7 @@ class _Ops:
                 twin_eval = lambda t_: ImageTransformer(t_)(arg)
             else:
                 real = lambda: mod(pts)
-                twin_eval = lambda t_: PointSetTransformer(t_)(pts)
+                twin_eval = lambda t_: PointSetTransformer(t_, grid=ent[2], axes=ent[3])(pts) if len(ent) > 2 else PointSetTransformer(t_)(pts)
         else:
             real = lambda: x.obj(pts, grid=use_grid)
             twin_eval = lambda t_: t_(pts, grid=use_grid)
@@ -1232,6 +1271,7 @@ class _Ops:
                 link_net = pn
         calls_before = link_net.calls if link_net is not None else 0
         others_before = self._other_params(x)
+        own_before = self._own_params(x)
         self.pred_replaces(x)  # also when the evaluation is aborted half-way: a generic transform may have rewritten member parameters already
         k = op.get("interrupt")
         if k is not None:
@@ -1248,6 +1288,22 @@ class _Ops:
                 v2 = self.viol("C09", "link-recomputes-parameters", x, "call", {"predictor_invocations": link_net.calls - calls_before, "outcome": st})
                 self.set_buf(x, "unknown")
                 return StepResult("ok", "call-link-recomputed", [v1, v2])
+        if own_before:
+            # evaluating a transform reads the parameter tensors it holds (optimisable parameter or fixed tensor); it never
+            # writes them -- the inverse shares them, and the next evaluation starts from them
+            self.c["checks"]["evaluation_leaves_own_parameters"] += 1
+            own_after = self._own_params(x)
+            changed_own = sorted({cname(own_before[k2][0]) for k2 in own_before if k2 in own_after and own_after[k2][1] != own_before[k2][1]})
+            if changed_own:
+                self.set_buf(x, "unknown")
+                self.related_unknown(x, include_self=True)
+                for e in self.elems(x):
+                    e.affine_params = False
+                    for mh in self.handles_of_obj(e.obj):
+                        self.mark_pairs(mh, False, "inplace")
+                det = {"members": changed_own, "outcome": st}
+                return StepResult("ok", "call-wrote-own-parameters", [self.viol("C09", "evaluation-changed-own-parameters", x, "call", det),
+                                                                        self.viol("C07", "evaluation-changed-own-parameters", x, "call", det)])
         changed_other = [oid for oid, d_ in self._other_params(x).items() if others_before.get(oid, d_) != d_]
         if others_before:
             self.c["checks"]["evaluation_leaves_other_parameters"] += 1
@@ -1613,7 +1669,7 @@ class _Ops:
             return StepResult("ok", setter + "-raised", [self.viol("C09", "raises", x, setter, self.exc_detail(r))])
         if k in ("C", "L"):
             return StepResult("ok", setter + "-unexpected-ok", [self.viol("C09", "readonly-not-enforced", x, setter, {})])
-        x.smooth = x.smooth and op["val"].get("gen", "smooth") in ("smooth", "affine")
+        x.smooth = x.smooth and op["val"].get("gen", "smooth") in ("smooth", "affine", "bump")
         x.affine_params = op["val"].get("gen") == "affine" and setter == "data_"
         self.set_cleared(x, setter)
         self.related_unknown(x)
@@ -1638,7 +1694,7 @@ class _Ops:
         else:
             with torch.no_grad():
                 t.params.add_(delta)
-        x.smooth = x.smooth and op["val"].get("gen", "smooth") in ("smooth", "affine")
+        x.smooth = x.smooth and op["val"].get("gen", "smooth") in ("smooth", "affine", "bump")
         aff = op["val"].get("gen") == "affine"
         for y in self.storage_mates(t):
             y.buf = "unknown"
@@ -1744,13 +1800,32 @@ class _Ops:
                 stc, mod = self.guarded(lambda: ImageTransformer(x.obj) if kind_ == "image" else PointSetTransformer(x.obj))
                 if stc != "ok":
                     return StepResult("expected_error", "transformer-ctor")
-                ent = (mod, gen.grid_key(x.obj.grid()))
+                ent = (mod, gen.grid_key(x.obj.grid()), x.obj.grid().clone(), x.obj.axes())
                 self.xf[(x.hid, kind_)] = ent
             mod = ent[0]
             self.c["probes"]["condition_through_transformer"] += 1
             st, r = self.guarded((lambda: mod.condition_(c)) if thru.endswith("_") else (lambda: mod.condition(c)))
         else:
-            st, r = self.guarded(lambda: x.obj.condition_(c))
+            # keyword conditioning (a quarter of the direct calls): condition_(c, k=...) -- the keywords are part of what a
+            # transform is conditioned on, and belong to the object they were given to
+            kw = {"k": torch.tensor(float(op["kw"]))} if op.get("kw") is not None else {}
+            mine, stack_ = set(), [x.obj]
+            while stack_:  # the receiver and, for a composite, its members (conditioned with it; held by reference)
+                o_ = stack_.pop()
+                if id(o_) not in mine:
+                    mine.add(id(o_))
+                    if isinstance(o_, CompositeTransform):
+                        stack_.extend(o_.transforms())
+            others_before = self._cond_of_others(mine)
+            st, r = self.guarded(lambda: x.obj.condition_(c, **kw))
+            if st == "ok":
+                self.c["checks"]["condition_leaves_other_objects"] += 1
+                others_after = self._cond_of_others(mine)
+                changed = sorted(k_ for k_ in others_before if others_after.get(k_, others_before[k_]) != others_before[k_])
+                if changed:
+                    self.set_buf(x, "unknown")
+                    self.related_unknown(x, include_self=True)
+                    return StepResult("ok", "condition_-leaked", [self.viol("C09", "condition-changed-other-object", x, "condition_" + (":kw" if kw else ""), {"objects": changed[:4]})])
         bad = self.classify(st, r, x, "condition_")
         if bad:
             return bad
@@ -1759,6 +1834,21 @@ class _Ops:
         self.mark_pairs(x, True, "condition_")
         self.note_change(x, "condition_", fresh=True)
         return StepResult("ok", "condition_")
+
+    def _cond_of_others(self, exclude: set) -> Dict[str, bytes]:
+        """What every other object of the world is conditioned on (objects in ``exclude`` -- the receiver and everything it
+        contains -- left out)."""
+        out: Dict[str, bytes] = {}
+        for o in self.all_objs():
+            if id(o) in exclude or not hasattr(o, "condition"):
+                continue
+            try:
+                a, kw = o.condition()
+            except Exception:  # noqa: BLE001
+                continue
+            hs = sorted(y.hid for y in self.h.values() if y.obj is o)
+            out[f"{cname(o)}#{hs[0] if hs else 'member'}:{len(out)}"] = digest_bytes(repr(sorted(kw)).encode(), *[tdig(v) if isinstance(v, Tensor) else repr(v).encode() for v in list(a) + [kw[k] for k in sorted(kw)]])
+        return out
 
     # -------------------------------------------------------- grid changes
     def _data_hull(self, t, grid: Grid) -> Tensor:
@@ -1850,10 +1940,15 @@ class _Ops:
         if mode == "refuse":
             # a request the model must refuse (B-spline models only support 2n-1 refinement on the same domain):
             # a refused operation leaves the transform exactly as it was
-            if fam != "spline" or k not in ("P", "B"):
+            if op.get("variant") != "ndim" and (fam != "spline" or k not in ("P", "B")):
                 return StepResult("skipped")
             size = [int(s_) for s_ in old.size()]
-            if op.get("variant") == "domain":
+            if op.get("variant") == "ndim":
+                # a grid of the other dimension (a 3-D image grid handed to a 2-D model and vice versa), with the other
+                # align_corners convention: every model refuses it
+                nsz = size[:2] if self.D == 3 else size + [5]
+                st0, bad_grid = self.guarded(lambda: Grid(size=nsz, align_corners=not old.align_corners()))
+            elif op.get("variant") == "domain":
                 st0, bad_grid = self.guarded(lambda: Grid(size=size, spacing=[float(v) * 1.5 for v in old.spacing()], center=old.center(), direction=old.direction(), align_corners=True))
             else:
                 st0, bad_grid = self.guarded(lambda: old.resize([2 * n for n in size], align_corners=True))
@@ -2024,7 +2119,7 @@ class _Ops:
         def rec(o, path):
             out[path + ".grid"] = gen.grid_key(o.grid())
             a, kw = o.condition()
-            out[path + ".cond"] = digest_bytes(*[tdig(v) if isinstance(v, Tensor) else repr(v).encode() for v in list(a) + [kw[k] for k in sorted(kw)]])
+            out[path + ".cond"] = digest_bytes(repr(sorted(kw)).encode(), *[tdig(v) if isinstance(v, Tensor) else repr(v).encode() for v in list(a) + [kw[k] for k in sorted(kw)]])
             if isinstance(o, CompositeTransform):
                 for name, m in o.named_transforms():
                     rec(m, path + "/" + name)
@@ -2084,6 +2179,9 @@ class _Ops:
             if self.shape_bound(x) or op.get("same_size"):
                 g = Grid(size=t.grid().size(), spacing=g.spacing(), center=g.center(), direction=g.direction(), align_corners=g.align_corners())
             old_grid = t.grid()
+            if op.get("equal"):
+                # the grid the transform already has (an equal one, or the very object): still "a new transformation"
+                g = old_grid.clone() if op["equal"] == "clone" else old_grid
             gprobe = self._grid_probe(x, old_grid, g, "new", {"pseed": int(op["out"]) + 17})
             st, r = G(lambda: t.grid(g))
             buf = "cleared"
@@ -2120,6 +2218,10 @@ class _Ops:
         if bad:
             return bad
         self.c["checks"]["accessor_leaves_receiver"] += 1
+        if r is t:
+            # "a new transformation with ..." / "shallow copy with ...": a replacing operation on the result (data_, grid_,
+            # condition_ ...) would replace the state of the transform the accessor was called on
+            return StepResult("ok", "acc-returned-receiver", [self.viol("C09", "accessor-returned-receiver", x, "acc:" + how + (":equal" if op.get("equal") else ""), {})])
         held_after = self._holds(t)
         if r is not t and held_after != held_before:
             changed = [k for k in held_before if held_before[k] != held_after.get(k)]
@@ -2146,7 +2248,7 @@ class _Ops:
                 if st.comp == x.comp and st.obj is not y.obj and not isinstance(st.obj, CompositeTransform):
                     st.foreign_reshape = True
         if how in ("grid", "data"):
-            y.smooth = x.smooth and (how == "grid" or op["val"].get("gen", "smooth") in ("smooth", "affine"))
+            y.smooth = x.smooth and (how == "grid" or op["val"].get("gen", "smooth") in ("smooth", "affine", "bump"))
             if how == "data":
                 y.affine_params = op["val"].get("gen") == "affine"
             else:
@@ -2552,6 +2654,10 @@ class _Ops:
                     mode = t_.training
                     t_.eval()
                     t_.train(mode)
+                elif how == "eval":
+                    t_.eval()  # stays in evaluation mode (inference, validation phases) until a 'train'
+                elif how == "train":
+                    t_.train()
                 elif how == "zero_grad":
                     t_.zero_grad()
                 else:
@@ -2565,7 +2671,7 @@ class _Ops:
             self.c["probes"]["module_switch:" + how] += 1
             if self._holds(x.obj) != before:
                 return StepResult("ok", "cast-changed", [self.viol("C09", "cast-changed-state", x, how, {})])
-            if how in ("freeze", "unfreeze"):
+            if how in ("freeze", "unfreeze", "eval", "train"):
                 self.hot = [x.hid]  # what follows (evaluations, in-place changes, reloads) concentrates on this handle
             return StepResult("ok", "cast:" + how)  # nothing replaced: model state unchanged
         st, r = self.guarded(lambda: x.obj.double().float())
@@ -2902,9 +3008,9 @@ class _Gen:
         d = {"seed": rng.subseed(), "scale": 0.3 if small else 1.0}
         if t is not None and family(t) in ("dense", "spline"):
             if self.sc["profile"] == "C07":
-                d["gen"] = rng.weighted([("smooth", 8), ("affine", 2)])
+                d["gen"] = rng.weighted([("smooth", 8), ("affine", 2), ("bump", 1.5)])
             else:
-                d["gen"] = rng.weighted([("smooth", 4), ("affine", 4), ("randn", 2)])
+                d["gen"] = rng.weighted([("smooth", 4), ("affine", 4), ("randn", 2), ("bump", 1)])
             d["amp"] = rng.round(0.03, 0.12 if small else 0.25, 3)
             if self.sc["profile"] == "C07" and rng.chance(0.4):
                 # small amplitudes: an error that is first order in the amplitude (boundary handling, a wrong sign of a
@@ -2970,7 +3076,7 @@ class _Gen:
         else:  # generic
             name = "GenericSpatialTransform"
             model = rng.choice(["Affine", "Affine o SVF", "SVF o Affine", "Affine o FFD", "SVFFD", "DDF", "Affine o DDF"])
-            aff = rng.choice(["TRS", "TR", "A", "TRKS", "T", "RS"] + (["TQ", "TQS"] if D == 3 else []))
+            aff = rng.choice(["TRS", "TR", "A", "TRKS", "T", "RS", "TA", "AT"] + (["TQ", "TQS"] if D == 3 else []))
             cps = rng.choice([1, 1, 2])
             if "FFD" in model:
                 gd["align_corners"] = True
@@ -2989,6 +3095,8 @@ class _Gen:
             if kind == "C" and fam in ("lin", "dense", "spline") and rng.chance(0.35):
                 op["module_net"] = True  # the parameter callable is an nn.Module (registered as submodule)
         op.update({"cls": name, "kind": kind, "grid": gd, "out": self.alloc(nout)})
+        if name in VELOCITY and op.get("kw", {}).get("scale") is not None and rng.chance(0.4):
+            op["scale_as_tensor"] = True
         self.n_roots += 1
         return op
 
@@ -3143,6 +3251,8 @@ class _Gen:
             return None
         fam = family(x.obj)
         D = self.D
+        if rng.chance(0.04):
+            return {"op": "grid_", "h": x.hid, "mode": "refuse", "variant": "ndim"}
         if fam == "spline":
             if rng.chance(0.15):
                 return {"op": "grid_", "h": x.hid, "mode": "refuse", "variant": rng.choice(["size", "domain"])}
@@ -3178,6 +3288,8 @@ class _Gen:
         op = {"op": "condition_", "h": x.hid, "cseed": rng.subseed()}
         if rng.chance(0.3):
             op["thru"] = rng.choice(["image", "image_", "pointset", "pointset_"])
+        elif rng.chance(0.35):
+            op["kw"] = round(rng.uniform(-2.0, 2.0), 3)
         return op
 
     def gen_copy(self, rng):
@@ -3200,6 +3312,8 @@ class _Gen:
             op["grid"] = gen.grid_desc(rng, self.D, 6, 16 if self.D == 2 else 9)
             if rng.chance(0.35):
                 op["same_size"] = True  # same lattice size, other geometry: the parameter shape stays the same
+            elif rng.chance(0.2):
+                op["equal"] = rng.choice(["clone", "same"])
         elif how == "data":
             if x.is_comp:
                 return None
@@ -3259,6 +3373,17 @@ class _Gen:
         comps = [y for y in live if y.is_comp and not generic_pred(y.obj)]
         if comps and rng.chance(0.35) and not any(m.is_comp for m in ms):
             ms[0] = rng.choice(comps)  # a composite nested in a composite
+        homs = [y for y in live if cname(y.obj) == "HomogeneousTransform"]
+        if homs and rng.chance(0.5):
+            # a matrix transform next to another linear model: the product of the two is formed by the special cases of
+            # homogeneous_matmul (translation x matrix, matrix x translation, ...), which a chain of dense models never reaches
+            lins = [y for y in live if not y.is_comp and family(y.obj) == "lin" and y.obj is not homs[0].obj]
+            if lins:
+                ms = [rng.choice(homs), rng.choice(lins)]
+                if ms[0].obj is ms[1].obj:
+                    return None
+                if rng.chance(0.5):
+                    ms.reverse()
         pairs = [p for p in self.pairs if p.valid and self.get(p.t) and self.get(p.i) and not self.get(p.t).is_comp]
         if pairs and rng.chance(0.25):
             # a transform next to its own inverse (they share parameters, and possibly buffers) inside one composite
@@ -3355,7 +3480,7 @@ class _Gen:
         return {"op": "hook", "h": x.hid, "mode": "remove"}
 
     def gen_cast(self, rng):
-        how = rng.weighted([("double-float", 3), ("freeze", 1.5), ("unfreeze", 1.5), ("train-eval", 1), ("zero_grad", 1), ("to-same", 1)])
+        how = rng.weighted([("double-float", 3), ("freeze", 1.5), ("unfreeze", 1.5), ("train-eval", 0.6), ("eval", 1.5), ("train", 0.8), ("zero_grad", 1), ("to-same", 1)])
         if how != "double-float":
             x = None
             if how == "freeze" and rng.chance(0.7):
